@@ -10,7 +10,7 @@ from common import *
 import model, findings as F
 from props import base
 
-PROPS_MODULES = ["ShexerModel.Props.C06", "ShexerModel.Props.GenStrCorners", "ShexerModel.Props.GenStrLiteral", "ShexerModel.Props.GenStrNtTok", "ShexerModel.Props.GenStrTune2"]
+PROPS_MODULES = ["ShexerModel.Props.C06", "ShexerModel.Props.GenStrCorners", "ShexerModel.Props.GenStrLiteral", "ShexerModel.Props.GenStrNtTok", "ShexerModel.Props.GenStrTune2", "ShexerModel.Props.GenNtReader"]
 DEPS = ["S.remove_corners", "S.decide_literal_type"] + ["S." + x for x in ('nt_look_for_index_of_closing_quotes', 'nt_look_for_last_index_before_blank', 'nt_look_for_last_index_of_uri_token', 'nt_look_for_last_index_of_bnode_token', 'nt_look_for_last_index_of_unlabelled_number_token', 'nt_look_for_last_index_of_literal_token', 'nt_look_for_tokens', 'parse_literal', 'parse_unquoted_literal', 'tune_subj', 'tune_prop', 'tune_token')]
 replay = base.replay
 
